@@ -311,9 +311,22 @@ def run_driver(lines):
 
 
 def run_harness(args, stdin=None, profile="debug", timeout=3000):
-    p = subprocess.run([harness_bin(profile)] + args, input=stdin, stdout=subprocess.PIPE, stderr=subprocess.PIPE,
-                       timeout=timeout, env=ENV)
-    out = p.stdout.decode("utf-8", "replace")
+    """Results come back through a file (HARNESS_OUT): portus itself prints to stdout."""
+    import tempfile
+    os.makedirs(os.path.join(CACHE, "tmp"), exist_ok=True)
+    fd, path = tempfile.mkstemp(prefix="hout-", dir=os.path.join(CACHE, "tmp"))
+    os.close(fd)
+    env = dict(ENV)
+    env["HARNESS_OUT"] = path
+    try:
+        p = subprocess.run([harness_bin(profile)] + args, input=stdin, stdout=subprocess.DEVNULL, stderr=subprocess.PIPE,
+                           timeout=timeout, env=env)
+        out = open(path, "rb").read().decode("utf-8", "replace")
+    finally:
+        try:
+            os.remove(path)
+        except OSError:
+            pass
     lines = [l for l in out.split("\n") if l]
     return p.returncode, lines, p.stderr.decode("utf-8", "replace")
 
